@@ -13,7 +13,8 @@ PROOF_IMPORTS = ["BigtreeProofs.Properties.C13"]
 NAMED_REJ = ("ValueError",)
 LIBS = ["list", "pd", "pdobj", "pl"]
 
-RULE = ("relation constructors (list / pandas default dtypes / pandas dtype=object / polars, through the real "
+RULE = ("[25% of the cases build TWICE from the same input object and every constructor's input is deep-compared before/after; "
+        "40% of the nested dictionaries contain one sub-dictionary OBJECT referenced from two places] relation constructors (list / pandas default dtypes / pandas dtype=object / polars, through the real "
         "libraries) on shuffled edge lists of random trees (<=30 nodes) with distinct non-leaf names, duplicated LEAF "
         "names, attribute columns with missing cells, optional null-parent root row, both allow_duplicates settings; "
         "malformed stream: no root, two roots, repeated non-leaf names, repeated rows, empty input; nested dicts "
@@ -49,18 +50,20 @@ ASSUMPTIONS = [
 def _line(d):
     fn = d["fn"]
     if fn == "rel":
-        parts = ["fn=rel", "dupok=%d" % (1 if d["dupok"] else 0), "lib=" + d["lib"]]
+        parts = ["fn=rel", "dupok=%d" % (1 if d["dupok"] else 0), "lib=" + d["lib"], "rep=%d" % d.get("rep", 1)]
         for c, p, a in d["rows"]:
             parts += ["R", hx(c), "-" if p is None else hx(p), core.enc_attrs(a)]
         return " ".join(parts)
     if fn == "nested":
+        extra = "rep=%d alias=%s" % (d.get("rep", 1), ";".join(".".join(map(str, a)) + ">" + ".".join(map(str, b))
+                                                                 for a, b in d.get("alias", [])) or "-")
         if d["nd"] is None:
-            return "fn=nested keys=%s E" % d.get("keys", 0)
+            return "fn=nested keys=%s %s E" % (d.get("keys", 0), extra)
         def enc(t):
             return " ".join(["(", hx(t[0]), core.enc_attrs(t[1])] + [enc(c) for c in t[2]] + [")"])
-        return "fn=nested keys=%s N %s" % (d.get("keys", 0), enc(d["nd"]))
+        return "fn=nested keys=%s %s N %s" % (d.get("keys", 0), extra, enc(d["nd"]))
     if fn == "heap":
-        return "fn=heap xs=" + (",".join(str(x) for x in d["xs"]) if d["xs"] else "e")
+        return "fn=heap rep=%d xs=" % d.get("rep", 1) + (",".join(str(x) for x in d["xs"]) if d["xs"] else "e")
     raise ValueError(fn)
 
 
@@ -73,13 +76,17 @@ def rehydrate(case):
 
 
 # ---------------------------------------------------------------- running the real code
-def _call(d):
-    import bigtree
+def _prepare(d):
+    """build the input OBJECT once; returns (invoke, inp, same) where invoke() calls the constructor on that very
+    object, inp is the (mutable) input and same(x, y) compares two inputs deeply"""
+    import bigtree, copy
     fn = d["fn"]
+    plain = lambda x, y: x == y
     if fn == "rel":
         rows, lib = d["rows"], d["lib"]
         if lib == "list":
-            return bigtree.list_to_tree_by_relation([(p, c) for c, p, _a in rows], allow_duplicates=d["dupok"])
+            inp = [(p, c) for c, p, _a in rows]
+            return (lambda: bigtree.list_to_tree_by_relation(inp, allow_duplicates=d["dupok"])), inp, plain
         cols = []
         for _c, _p, a in rows:
             for k in a:
@@ -94,28 +101,61 @@ def _call(d):
             frame = U.make_frame(lib, cols + ["parent", "child"], [[a.get(k) for k in cols] + [p, c] for c, p, a in rows],
                                  str_cols=("child", "parent"))
             kw = {"child_col": "child", "parent_col": "parent"}
+        same = lambda x, y: list(x.columns) == list(y.columns) and bool(x.equals(y))
         if lib == "pl":
-            return bigtree.polars_to_tree_by_relation(frame, allow_duplicates=d["dupok"], **kw)
-        return bigtree.dataframe_to_tree_by_relation(frame, allow_duplicates=d["dupok"], **kw)
+            return (lambda: bigtree.polars_to_tree_by_relation(frame, allow_duplicates=d["dupok"], **kw)), frame, same
+        return (lambda: bigtree.dataframe_to_tree_by_relation(frame, allow_duplicates=d["dupok"], **kw)), frame, same
     if fn == "nested":
         keys = d.get("keys", 0)
         nk, ck = ("name", "children") if keys == 0 else ("node_name", "kids")
         if d["nd"] is None:
             arg = {}
         else:
-            def build(t, depth=0):
+            alias = {}                                   # the two addresses carry the SAME dict object
+            for src, dst in d.get("alias", []):
+                alias[tuple(dst)] = tuple(src)
+                alias[tuple(src)] = tuple(dst)
+            objs = {}
+            def build(t, addr):
+                if addr in alias and alias[addr] in objs:
+                    return objs[alias[addr]]
                 dd = {nk: t[0]}
                 dd.update(t[1])
-                if t[2] or (len(t[0]) + depth) % 2 == 0:   # leaves: child list sometimes absent, sometimes []
-                    dd[ck] = [build(c, depth + 1) for c in t[2]]
+                if t[2] or (len(t[0]) + len(addr)) % 2 == 0:   # leaves: child list sometimes absent, sometimes []
+                    dd[ck] = [build(c, addr + (k,)) for k, c in enumerate(t[2])]
+                objs[addr] = dd
                 return dd
-            arg = build(d["nd"])
+            arg = build(d["nd"], ())
         if keys == 0:
-            return bigtree.nested_dict_to_tree(arg)
-        return bigtree.nested_dict_to_tree(arg, name_key=nk, child_key=ck)
+            return (lambda: bigtree.nested_dict_to_tree(arg)), arg, plain
+        return (lambda: bigtree.nested_dict_to_tree(arg, name_key=nk, child_key=ck)), arg, plain
     if fn == "heap":
-        return bigtree.list_to_binarytree(list(d["xs"]))
+        inp = list(d["xs"])
+        return (lambda: bigtree.list_to_binarytree(inp)), inp, plain
     raise ValueError(fn)
+
+
+def _snapshot(inp):
+    import copy
+    if hasattr(inp, "clone"):       # polars
+        return inp.clone()
+    if hasattr(inp, "copy") and hasattr(inp, "columns"):   # pandas
+        return inp.copy(deep=True)
+    return copy.deepcopy(inp)
+
+
+def _runs(d):
+    """[(root | None, exception | None)] for each of the d['rep'] builds from the same input object,
+    and whether the input object was left unchanged"""
+    invoke, inp, same = _prepare(d)
+    before = _snapshot(inp)
+    out = []
+    for _ in range(d.get("rep", 1)):
+        try:
+            out.append((invoke(), None))
+        except Exception as e:
+            out.append((None, e))
+    return out, bool(same(before, inp))
 
 
 def _show(root):
@@ -135,27 +175,38 @@ def _showb(n):
     return "( %s %s %s )" % (hx(n.node_name), _showb(n.left), _showb(n.right))
 
 
-def impl(case):
-    d = case.data
-    try:
-        root = _call(d)
-    except Exception as e:
-        return U.rej(e, NAMED_REJ)
+def _canon1(d, root, err):
+    if err is not None:
+        return U.rej(err, NAMED_REJ)
     if d["fn"] == "heap":
         return "ok " + _showb(root)
     return "ok " + _show(root)
 
 
+def impl(case):
+    d = case.data
+    runs, _unchanged = _runs(d)
+    outs = [_canon1(d, r, e) for r, e in runs]
+    # repeated builds from the same input object must all give the model's answer
+    return outs[0] if all(o == outs[0] for o in outs) else " || ".join(outs)
+
+
 # ---------------------------------------------------------------- oracle (model-free)
 def oracle(case):
     d = case.data
+    runs, unchanged = _runs(d)
+    msgs = []
+    for k, (root, err) in enumerate(runs):
+        for m in _oracle1(d, root, err):
+            msgs.append(m if k == 0 else "build #%d from the same input object: %s" % (k + 1, m))
+    if not unchanged:
+        msgs.append(f"{d['fn']}: the constructor modified its input")
+    return msgs
+
+
+def _oracle1(d, root, err):
     fn = d["fn"]
     msgs = []
-    try:
-        root = _call(d)
-        err = None
-    except Exception as e:
-        root, err = None, e
     if fn == "heap":
         xs = d["xs"]
         if not xs:
@@ -361,8 +412,10 @@ def _rand_rel(rng, malformed=False):
             rows.insert(rng.randint(0, len(rows)), [r[0], r[1], dict(r[2])])
         elif kind == "empty":
             rows = []
-    d = {"fn": "rel", "lib": lib, "dupok": dupok, "rows": rows, "colorder": rng.choice([0, 0, 1])}
+    d = {"fn": "rel", "lib": lib, "dupok": dupok, "rows": rows, "colorder": rng.choice([0, 0, 1]),
+         "rep": rng.choice([1, 1, 1, 2])}
     tags.append("dupok" if dupok else "nodup")
+    tags.append("rep=%d" % d["rep"])
     tags.append("n=%d" % min(30, len(rows)))
     return mk(d, tags)
 
@@ -392,12 +445,35 @@ def _rand_nested(rng, malformed=False):
                 s[2].insert(rng.randint(0, len(s[2])), [rng.choice(s[2])[0], {}, []])
             else:
                 nd = None
-    return mk({"fn": "nested", "nd": nd, "keys": rng.choice([0, 0, 1])}, tags)
+    alias = []
+    if nd is not None and not malformed and rng.random() < 0.4:
+        # one sub-dictionary OBJECT referenced from two places: copy a subtree under another parent
+        for _ in range(1):
+            nodes = core.spec_nodes(nd)
+            cand = [(a, s) for a, s in nodes if a != ()]
+            if not cand:
+                break
+            withkids = [(a, s) for a, s in cand if s[2]]
+            a_src, s_src = rng.choice(withkids or cand)
+            parents = [(a, s) for a, s in nodes
+                       if tuple(a[:len(a_src)]) != tuple(a_src) and all(c[0] != s_src[0] for c in s[2])]
+            if not parents:
+                break
+            a_par, s_par = rng.choice(parents)
+            import copy as _copy
+            s_par[2].append(_copy.deepcopy(s_src))
+            alias.append([list(a_src), list(a_par) + [len(s_par[2]) - 1]])
+        if alias:
+            tags.append("alias")
+    rep = rng.choice([1, 1, 1, 2])
+    tags.append("rep=%d" % rep)
+    return mk({"fn": "nested", "nd": nd, "keys": rng.choice([0, 0, 1]), "alias": alias, "rep": rep}, tags)
 
 
 def _heap(rng, n):
     xs = [rng.choice([rng.randint(-5, 20), rng.randint(-10 ** 6, 10 ** 6), 7]) for _ in range(n)]
-    return mk({"fn": "heap", "xs": xs}, ("heap", "len=%d" % n))
+    rep = rng.choice([1, 1, 2])
+    return mk({"fn": "heap", "xs": xs, "rep": rep}, ("heap", "len=%d" % n, "rep=%d" % rep))
 
 
 def _exhaustive(tier):
@@ -434,6 +510,20 @@ def _corpus():
                    "rows": [["x", "N1", {"v": 1}], ["x", "N2", {"v": 2}], ["N1", "N0", {"v": None}], ["N2", "N0", {"v": 4}],
                             ["N0", None, {"v": 9}]], "colorder": 0}, ("corpus", "dupleaf")))
     out.append(mk({"fn": "heap", "xs": list(range(1, 11))}, ("corpus",)))
+    # one sub-dictionary object at two places; two builds from the same input object
+    shared = ["x", {"kind": "shared"}, [["y", {}, []], ["z", {}, []]]]
+    import copy as _copy
+    nd = ["r", {}, [["left", {}, [_copy.deepcopy(shared)]], ["right", {}, [_copy.deepcopy(shared)]]]]
+    for rep in (1, 2):
+        for al in ([], [[[0, 0], [1, 0]]]):
+            out.append(mk({"fn": "nested", "nd": _copy.deepcopy(nd), "keys": 0, "alias": al, "rep": rep}, ("corpus", "alias")))
+    out.append(mk({"fn": "rel", "lib": "list", "dupok": False, "rows": [[c, p, {}] for p, c in rel], "colorder": 0, "rep": 2},
+                  ("corpus", "rep=2")))
+    out.append(mk({"fn": "rel", "lib": "pd", "dupok": False, "rows": [[c, p, {"v": 1}] for p, c in rel], "colorder": 0,
+                   "rep": 2}, ("corpus", "rep=2")))
+    out.append(mk({"fn": "rel", "lib": "pl", "dupok": False, "rows": [[c, p, {"v": 1}] for p, c in rel], "colorder": 0,
+                   "rep": 2}, ("corpus", "rep=2")))
+    out.append(mk({"fn": "heap", "xs": [3, 0, 0, 5, 0], "rep": 2}, ("corpus", "rep=2")))
     # refusals, once per library and duplicate setting
     amb = [["x", "a", {}], ["b", "a", {}], ["x", "b", {}], ["y", "x", {}]]           # x is a parent, under a and under b
     noroot = [["b", "a", {}], ["c", "b", {}], ["a", "c", {}]]
@@ -473,6 +563,8 @@ def nontrivial(case):
 # ---------------------------------------------------------------- shrinking
 def shrink(case):
     d = case.data
+    if d["fn"] != "nested" and d.get("rep", 1) > 1:
+        yield mk(dict(d, rep=1), case.tags)
     if d["fn"] == "heap":
         xs = d["xs"]
         if len(xs) > 1:
@@ -495,6 +587,11 @@ def shrink(case):
     nd = d["nd"]
     if nd is None:
         return
+    if d.get("rep", 1) > 1 and not d.get("alias"):
+        yield mk(dict(d, rep=1), case.tags)
+    if d.get("alias"):
+        yield mk(dict(d, alias=[]), case.tags)
+        return          # addresses in `alias` would dangle after removing nodes
     nodes = core.spec_nodes(nd)
     for idx in range(len(nodes) - 1, 0, -1):
         addr, s = nodes[idx]
